@@ -1,7 +1,7 @@
 (* C11 over the integrated pipeline model (Res/Pipeline.v): the names of the documents `Pipeline.build` emits
    are the ones the layering prescribes.  Joins C11_prefix_nesting (Res/Compose.v, ids only) with the
    [renamed] relation of Res/PipelineWfProofs.v (whole documents): for kustomization trees of well-formed
-   documents without generators and without a namespace directive (labels and annotations allowed), a resource
+   documents without generators, replicas, images and without a namespace directive (labels and annotations allowed), a resource
    that lies below the layers (p1,s1) ... (pk,sk) leaves the build as
         p1 ++ ... ++ pk ++ name ++ sk ++ ... ++ s1
    with its apiVersion, kind and namespace unchanged (a side being left out for kinds on that side's skip list). *)
@@ -176,12 +176,12 @@ Section Steps.
 
   (* one builtin transformer kind *)
   Lemma run_kind_moves k d m m' :
-    dirs_wf d -> Forall W m -> run_kind nonstr k d m = Ok m' ->
+    dirs_wf d -> pd_ns d = "" -> Forall W m -> run_kind nonstr k d m = Ok m' ->
     Forall W m' /\
     Forall2 (moves (b2n (String.eqb "PrefixTransformer" k)) (b2n (String.eqb "SuffixTransformer" k))
                    (pd_prefix d) (pd_suffix d)) m m'.
   Proof.
-    intros (Hns & Hn & _ & _ & _ & Hp & Hs) HW. unfold run_kind. rewrite Hns.
+    intros ([Hrp Him] & _ & Hn & _ & _ & _ & Hp & Hs) Hns HW. unfold run_kind. rewrite Hns, Hrp, Him.
     assert (Z : forall m0, Forall2 (moves 0 0 (pd_prefix d) (pd_suffix d)) m0 m0).
     { intros m0. apply Forall2_refl_on. intros r. apply same_identity_moves, same_identity_refl. }
     destruct (String.eqb_spec k "NamespaceTransformer") as [->|N1].
@@ -199,22 +199,23 @@ Section Steps.
     destruct (String.eqb k "AnnotationsTransformer").
     { intros H. destruct (label_transform_W nonstr _ _ _ _ common_annos_in_tbl HW H) as [W' S'].
       split; [exact W'|]. eapply Forall2_impl2; [|exact S']. intros a b. apply same_identity_moves. }
-    intros H; inv H. split; [assumption|apply Z].
+    destruct (String.eqb k "ReplicaCountTransformer"); [cbn; intros H; inv H; split; [assumption|apply Z]|].
+    destruct (String.eqb k "ImageTagTransformer"); cbn; intros H; inv H; (split; [assumption|apply Z]).
   Qed.
 
   Lemma cnt_cons k x t : cnt k (x :: t) = b2n (String.eqb k x) + cnt k t.
   Proof. unfold cnt. cbn. destruct (String.eqb k x); reflexivity. Qed.
 
   Lemma run_order_moves ks d : forall m m',
-    dirs_wf d -> Forall W m -> run_order nonstr ks d m = Ok m' ->
+    dirs_wf d -> pd_ns d = "" -> Forall W m -> run_order nonstr ks d m = Ok m' ->
     Forall W m' /\
     Forall2 (moves (cnt "PrefixTransformer" ks) (cnt "SuffixTransformer" ks) (pd_prefix d) (pd_suffix d)) m m'.
   Proof.
-    induction ks as [|k t IH]; intros m m' Hd HW H; cbn [run_order] in H.
+    induction ks as [|k t IH]; intros m m' Hd Hns HW H; cbn [run_order] in H.
     - inv H. split; [exact HW|]. apply Forall2_refl_on. intros r. apply same_identity_moves, same_identity_refl.
     - destruct (run_kind nonstr k d m) as [m1| | |] eqn:E; cbn [bind] in H; try discriminate.
-      destruct (run_kind_moves _ _ _ _ Hd HW E) as [W1 M1].
-      rewrite (drop_empties_W _ W1) in H. destruct (IH _ _ Hd W1 H) as [W2 M2].
+      destruct (run_kind_moves _ _ _ _ Hd Hns HW E) as [W1 M1].
+      rewrite (drop_empties_W _ W1) in H. destruct (IH _ _ Hd Hns W1 H) as [W2 M2].
       split; [exact W2|]. rewrite !cnt_cons.
       eapply (Forall2_trans_gen _ _ _ _ _ _ (fun x y z P Q => _) M1 M2).
       Unshelve. cbv beta. intros. 
@@ -231,11 +232,12 @@ Fixpoint pnames (t : ptree) : list idt :=
   | PDir _ d ents => map (affix_idt 1 1 (pd_prefix d) (pd_suffix d)) (List.concat (map pnames ents))
   end.
 
-(* the class: well-formed documents; per layer no namespace directive, no generators, no custom label fields,
+(* the class: well-formed documents; per layer no namespace directive, no generators, replicas or images, no custom label fields,
    comma-free prefix and suffix (labels, commonLabels, commonAnnotations are allowed) *)
 Inductive nest_wf : ptree -> Prop :=
 | nw_file docs : Forall wf_node docs -> nest_wf (PFile docs)
-| nw_dir n d ents : dirs_wf d -> pd_cmgens d = [] -> pd_secgens d = [] -> Forall nest_wf ents -> nest_wf (PDir n d ents).
+| nw_dir n d ents : dirs_wf d -> pd_ns d = "" -> pd_cmgens d = [] -> pd_secgens d = [] -> Forall nest_wf ents ->
+                    nest_wf (PDir n d ents).
 
 Section Acc.
   Variable nonstr : string -> bool.
@@ -273,7 +275,7 @@ Section Acc.
       + clear -Hd. induction Hd; cbn; constructor; auto using W_load.
       + unfold NH. clear. induction docs; cbn; constructor; auto.
       + rewrite map_map. reflexivity.
-    - inversion Hwf as [|? ? ? Hd Hg1 Hg2 He]; subst. rewrite accumulate_dir in H.
+    - inversion Hwf as [|? ? ? Hd Hns Hg1 Hg2 He]; subst. rewrite accumulate_dir in H.
       destruct (is_empty_kust d ents); [discriminate|].
       destruct (acc_list (accumulate nonstr) ents []) as [m0| | |] eqn:E0; cbn [bind] in H; try discriminate.
       rewrite (run_generators_none d m0 Hg1 Hg2) in H. cbn [bind] in H.
@@ -291,7 +293,7 @@ Section Acc.
       destruct X as (W0 & N0 & I0).
       unfold run_transformers in H.
       destruct (Labels.label_transformers _ _); cbn [bind] in H; try discriminate.
-      destruct (run_order_moves nonstr _ _ _ _ Hd W0 H) as [W1 M1].
+      destruct (run_order_moves nonstr _ _ _ _ Hd Hns W0 H) as [W1 M1].
       destruct gen_order_counts as [C1 C2]. rewrite C1, C2 in M1.
       split; [exact W1|]. split; [eapply moves_NH; eauto|].
       cbn [pnames]. rewrite (moves_map _ _ _ _ _ _ M1), I0. reflexivity.
@@ -400,7 +402,7 @@ Lemma pchain_nest_wf layers docs :
   nest_wf (pchain layers (PFile docs)).
 Proof.
   intros Hd. induction 1 as [|[p s] rest [Hp Hs] _ IH]; cbn [pchain]; [constructor; exact Hd|].
-  constructor; [|reflexivity|reflexivity|constructor; [exact IH|constructor]].
+  constructor; [|reflexivity|reflexivity|reflexivity|constructor; [exact IH|constructor]].
   repeat split; cbn; auto; constructor.
 Qed.
 
